@@ -18,7 +18,7 @@ func TestRegressTargetNotBelowConfiguredMinimum(t *testing.T) {
 	if err != nil {
 		t.Fatal(err)
 	}
-	defer func() { _ = bwe.Close() }()
+	defer kit.BoundedClose(bwe.Close)
 	w := bwe.AddStream(&interceptor.StreamInfo{SSRC: 1, RTPHeaderExtensions: []interceptor.RTPHeaderExtension{{URI: transportCCURI, ID: extID}}}, &kit.RTPSink{})
 	twcc := uint16(0)
 	for round := 0; round < 4; round++ {
